@@ -413,10 +413,17 @@ def conversion_coherence(case):
             break
         target = m.units.get_unit(fam[ui % len(fam)])
         lookups(j - 0.5)
+        before = (c08.obs(m), [[x.name, x.initial_value, x.cmeta_id, str(x.units)] for x in m.variables()])
         try:
             m.convert_variable(cur[v], target, DataDirectionFlow.INPUT if is_input else DataDirectionFlow.OUTPUT,
                                move_annotations=bool(move))
-        except Exception:
+        except Exception as e:
+            # a conversion that raises is a rejected edit: it must leave every observable as it was
+            after = (c08.obs(m), [[x.name, x.initial_value, x.cmeta_id, str(x.units)] for x in m.variables()])
+            if after != before:
+                diff = [k for k in before[0] if before[0][k] != after[0].get(k)] or ['variables']
+                bad.append(('C08', 'conversion %d (convert_variable(%s, %s)) raised %r and left the model changed: %s'
+                            % (j, cur[v].name, target, e, ', '.join(diff)), {'conv': j, 'differs': diff}))
             break
         cur = Reified(m, cur).objs
         lookups(j)
